@@ -115,7 +115,87 @@ pub fn random_root(corpus: &[String], rng: &mut Rng, max_pieces: usize) -> Root 
             return r;
         }
     }
-    random_root_plain(corpus, rng, max_pieces)
+    let r = random_root_plain(corpus, rng, max_pieces);
+    if rng.chance(1, 12) {
+        // the same position at the end of a very long game record (near the interface's limit)
+        let target = 389 + rng.below(9);
+        return pad_record(&r, target, rng).unwrap_or(r);
+    }
+    r
+}
+
+/// Prepend reversible four-ply cycles (a, b, a back, b back) played from the start position of
+/// `root` so that its game record has about `target` plies; the position reached is unchanged.
+pub fn pad_record(root: &Root, target: usize, rng: &mut Rng) -> Option<Root> {
+    use chess_oracle::Kind;
+    if root.moves.len() + 4 > target {
+        return None;
+    }
+    let start = fen::parse_strict(&root.fen).ok()?;
+    let movable = |p: &Pos, m: &Mv| {
+        let k = o::kind(p.b[m.from as usize]);
+        m.kind == Kind::Normal && k != o::PAWN && k != o::KING && k != o::ROOK && p.b[m.to as usize] == o::EMPTY
+    };
+    let rev = |m: &Mv| Mv { from: m.to, to: m.from, promo: 0, kind: Kind::Normal };
+    for _ in 0..30 {
+        let c0: Vec<Mv> = start.legal_moves().into_iter().filter(|m| movable(&start, m)).collect();
+        if c0.is_empty() {
+            return None;
+        }
+        let a = *rng.pick(&c0);
+        let p1 = start.make(&a);
+        let c1: Vec<Mv> = p1.legal_moves().into_iter().filter(|m| movable(&p1, m)).collect();
+        if c1.is_empty() {
+            continue;
+        }
+        let b = *rng.pick(&c1);
+        let p2 = p1.make(&b);
+        if !p2.legal_moves().contains(&rev(&a)) {
+            continue;
+        }
+        let p3 = p2.make(&rev(&a));
+        if !p3.legal_moves().contains(&rev(&b)) {
+            continue;
+        }
+        if p3.make(&rev(&b)) != start {
+            continue;
+        }
+        let cycles = (target - root.moves.len()) / 4;
+        let mut moves = Vec::with_capacity(target + 4);
+        for _ in 0..cycles {
+            moves.extend([a.uci(), b.uci(), rev(&a).uci(), rev(&b).uci()]);
+        }
+        moves.extend(root.moves.iter().cloned());
+        if moves.len() > 397 {
+            return None;
+        }
+        return Some(Root { fen: root.fen.clone(), moves });
+    }
+    None
+}
+
+/// Two positions that differ only in the en-passant file (one of them: none), searched one after
+/// the other on one table, in both orders, the second no deeper than the first.
+pub fn ep_twin_prelude(rng: &mut Rng) -> Vec<HStep> {
+    for _ in 0..200 {
+        let i = rng.next() % gen::family_size(gen::Family::EnPassant);
+        let Some(p) = gen::family_nth(gen::Family::EnPassant, i) else { continue };
+        // the a- and h-files matter most (edge cases of key indexing), keep them frequent
+        if let Some(f) = p.ep {
+            if f != 0 && f != 7 && rng.chance(2, 3) {
+                continue;
+            }
+        }
+        let mut q = p.clone();
+        q.ep = None;
+        let with = Root { fen: fen::render6(&p, 0, 1), moves: vec![] };
+        let without = Root { fen: fen::render6(&q, 0, 1), moves: vec![] };
+        let d = 2 + rng.below(3) as u8;
+        let step = |r: &Root, l: u8| HStep { root: r.clone(), limit: Some(l), stop_at: 0, clear_table: false };
+        let (first, second) = if rng.chance(1, 2) { (&with, &without) } else { (&without, &with) };
+        return vec![step(first, d), step(second, d), step(second, 1), step(first, d.saturating_sub(1).max(1))];
+    }
+    vec![]
 }
 
 /// A root taken from a random game (biased to a maximum piece count when `max_pieces` < 32).
@@ -325,10 +405,11 @@ pub fn make_history(corpus: &[String], rng: &mut Rng, len: usize, max_depth: u8)
     }
     let moves = game_moves(&spec);
     let mut steps = vec![];
-    match rng.below(6) {
+    match rng.below(8) {
         0 => steps.extend(dead_end_prelude(rng)),
         1 | 2 => steps.extend(doomed_prelude(rng)),
         3 | 4 => steps.extend(doomed_line_prelude(rng)),
+        5 | 6 => steps.extend(ep_twin_prelude(rng)),
         _ => {}
     }
     let mut ply = if moves.is_empty() { 0 } else { rng.below(moves.len().min(40) + 1) };
